@@ -35,6 +35,7 @@ type Engine struct {
 	mutatedGlobals map[string]string
 	typeCache map[string]types.Type
 	verbose  bool
+	lockTouch map[*ssa.Function]int
 }
 
 func newEngine(prog *Program, trustedDir string) (*Engine, error) {
